@@ -18,7 +18,9 @@ FUNCTIONS = ['uxarray.io._mpas._replace_padding',
     'uxarray.grid.coordinates._set_desired_longitude_range',
     'uxarray.io._mpas._parse_edge_nodes@primal',
     'uxarray.io._mpas._parse_edge_nodes@dual',
-    'uxarray.io._esmf._read_esmf']
+    'uxarray.io._esmf._read_esmf',
+    'uxarray.io._exodus._read_exodus@coordxyz',
+    'uxarray.io._exodus._read_exodus@coordxyz2']
 STANDINS = ["readers"]
 ASSUMPTIONS = []
 EXPLANATION = ""
